@@ -1060,6 +1060,12 @@ Error JitAllocator::release(void* rx) noexcept {
 
   // The first bit representing the allocated area and its size.
   uint32_t area_index = uint32_t(offset >> pool->granularity_log2);
+
+  // The initial padding of the block is not an allocation.
+  if (ASMJIT_UNLIKELY(area_index < block->initial_area_start())) {
+    return make_error(Error::kInvalidArgument);
+  }
+
   uint32_t area_end = uint32_t(Support::bit_vector_index_of(block->_stop_bit_vector, area_index, true)) + 1;
   uint32_t area_size = area_end - area_index;
 
@@ -1189,8 +1195,9 @@ Error JitAllocator::query(Out<Span> out, void* rx) const noexcept {
   // The first bit representing the allocated area and its size.
   uint32_t area_start = uint32_t(offset >> pool->granularity_log2);
 
+  // The initial padding of the block is marked as used, but it's not an allocation.
   bool is_used = Support::bit_vector_get_bit(block->_used_bit_vector, area_start);
-  if (ASMJIT_UNLIKELY(!is_used)) {
+  if (ASMJIT_UNLIKELY(!is_used || area_start < block->initial_area_start())) {
     return make_error(Error::kInvalidArgument);
   }
 
